@@ -5,7 +5,7 @@ import random
 from harness import core, htmlnorm, treegen, trees, xdoc
 
 GEN = ['gen_tables', 'gen_regex', 'gen_config', 'gen_escapes']
-THEOREMS = ['C03_fragment_parses', 'C03_fragment_hypotheses', 'C03_bounded_trees', 'C03_family_is_not_vacuous']
+THEOREMS = ['C03_fragment_parses', 'C03_fragment_token_tree', 'C03_fragment_hypotheses', 'C03_bounded_trees', 'C03_family_is_not_vacuous']
 TRUSTED = ['harness/treegen.py: the tree grammar, the speller (every free choice drawn and counted) and the direct HTML writer - the independent oracle; '
            'harness/htmlnorm.py: CommonMark\'s test normalisation',
            'Spec/Spell.v: the Coq twin of the grammar for the kernel sweep (independent of the parser model)',
